@@ -228,6 +228,38 @@ def run(ctx):
                 ctx.spec_failures.append((f"C07:routes-disagree:{name}", {"F": F, "act": akind, "w": oc.kind_of(w), "shape_x": list(x.shape), "shape_w": list(w.shape),
                                                                         "max_diff": float((v.double() - ref.double()).abs().max()) if v.shape == ref.shape else None}))
             ctx.count("variant:" + name)
+    # ---- aten.mm / bmm on two quantized operands, all axis combinations, shapes on both sides of the integer route
+    for _ in range(40 if not ctx.thorough else 400):
+        F = rng.choice(["f32", "f16", "bf16"])
+        dt = fmts()[F][0]
+        n, m, p = rng.choice([(24, 24, 24), (32, 32, 48), (24, 16, 8), (17, 8, 8), (24, 12, 8), (5, 7, 3), (64, 8, 16)])
+        la, ra = rng.choice([None, 0, -1]), rng.choice([None, 0, -1])
+        A = (torch.randn(n, m, generator=g) * torch.logspace(-1, 1, m).reshape(1, m)).to(dt)
+        B = (torch.randn(m, p, generator=g) * torch.logspace(-1, 1, m).reshape(m, 1)).to(dt)
+        try:
+            qa = q.quantize_weight(A, q.qint8, la) if la is not None else q.quantize_activation(A, q.qint8, (A.abs().max() / 127).to(dt))
+            qb = q.quantize_weight(B, q.qint8, ra) if ra is not None else q.quantize_activation(B, q.qint8, (B.abs().max() / 127).to(dt))
+            with torch.no_grad():
+                out = torch.mm(qa, qb)
+        except Exception as e:  # noqa
+            ctx.spec_failures.append((f"C07:mm-raises:{exc_name(e)}", {"F": F, "shapes": [n, m, p], "left_axis": la, "right_axis": ra, "message": str(e)[:150]}))
+            continue
+        ctx.evaluations += 1
+        ctx.count(f"mm:{F}:left-axis={la}:right-axis={ra}")
+        ctx.nontriv(("mm", F, n, m, p, la, ra))
+        # reference through the linear-shaped envelope helper: out = qa @ qb = linear(qa, qb.t())
+        xd, wd = qa.dequantize().double(), qb.dequantize().double()
+        exact = xd @ wd
+        mag = xd.abs() @ wd.abs()
+        u = {torch.float32: 2.0 ** -24, torch.float16: 2.0 ** -11, torch.bfloat16: 2.0 ** -8}[dt]
+        env = ((m + 4) * 2.0 ** -24 + 3 * u) * mag + 3 * u * exact.abs() + 2 * float(torch.finfo(dt).tiny) * u
+        od = out.dequantize() if oc.is_q(out) else out
+        if od.shape != exact.shape or (torch.isfinite(od.float()).all() and bool(((od.double() - exact).abs() > env).any())):
+            sig = "C07:mm-outside-envelope"
+            if float(qa._scale.double().abs().min() * qb._scale.double().abs().min()) < float(torch.finfo(dt).tiny):
+                sig = "C07:outside-envelope:scale-product-subnormal"
+            ctx.spec_failures.append((sig, {"F": F, "shapes": [n, m, p], "left_axis": la, "right_axis": ra,
+                                            "max_excess": float(((od.double() - exact).abs() - env).max()) if od.shape == exact.shape else None}))
     # ---- QBits weights (dequantize + float matmul), exact sets
     from optimum.quanto import QBitsTensor
     for _ in range(40 if not ctx.thorough else 400):
